@@ -1,7 +1,8 @@
 ---------------------------- MODULE SecureChannelTrace ----------------------------
 (* Monitor for C05: each line is one adversary stream delivered to the real receiver (crypto Decrypt, or hap.Connection.Read)
    and what came out.  {"ev":"stream","case","wire":[items],"nrel":frames released,"relok":released bytes equal the
-   sent plaintexts of frames 1..nrel,"err":an error was reported} *)
+   sent plaintexts of frames 1..nrel,"err":an error was reported,
+   "offs":start offsets of the items in the stream,"okend":offset consumed by the calls that reported success} *)
 EXTENDS Naturals, Sequences, FiniteSets, TLC, Json, IOUtils
 VARIABLES l
 Trace == ndJsonDeserialize(IOEnv.TRACE)
@@ -16,8 +17,9 @@ Next == /\ l <= Len(Trace)
                fb == FirstBad(e.wire, 1) IN
            \* what is released is an unmodified prefix, at frame granularity, of what the peer sent ...
            /\ Report("PrefixRule", e.relok /\ (fb # 0 => e.nrel < fb) /\ e.nrel <= Len(e.wire))
-           \* ... and an alteration is reported
-           /\ Report("DetectRule", fb # 0 => e.err)
+           \* ... and an alteration is reported, no later than the first altered frame: no call that reported success had
+           \* consumed anything beyond the start of that frame (offs = start offset of each item, okend = end of the last success)
+           /\ Report("DetectRule", fb # 0 => (e.err /\ e.okend <= e.offs[fb]))
            \* (sanity, not C05: an untouched stream is accepted completely)
            /\ Report("GenuineAccepted", fb = 0 => (~e.err /\ e.nrel = Len(e.wire)))
         /\ l' = l + 1
